@@ -557,6 +557,10 @@ func C03(ctx *core.Ctx) error {
 		cov.Sample(map[string]any{"proto": r.Sc.Proto, "n": r.Sc.N, "t": r.Sc.T, "ids": shortIDs(r.Sc.PartyKeys), "strategy": r.Sc.Strategy}, 8)
 	}
 	cov.Set("runs", len(recs))
+	// data-level conformance: real ECDSA key generations on toy curves, every value recomputed by TLC (KeygenData.tla)
+	if err := kdPhase(ctx, cov, "C03"); err != nil {
+		return err
+	}
 	return ctx.WriteEvidence("model_checking",
 		"one case = one real distributed key generation (protocol, n, t, party id class: small / random 256-bit / just below the order / above the order, schedule); "+
 			"verdict by independent curve arithmetic: identical public view, Xi*G = BigXj[i], all points on one degree-t polynomial, every (t+1)-subset interpolates "+
